@@ -145,7 +145,10 @@ def run_check(pid, tier):
             traceback.print_exc()
             failed.append(('harness', 'driver raised', traceback.format_exc()[-1500:]))
     cases = out['cases']
-    ev = evaluate_cases(pid, cases, ctx, getattr(mod, 'K_ALL_KINDS', ())) if ok else \
+    kall = getattr(mod, 'K_ALL_KINDS', ())
+    if callable(kall):
+        kall = kall(ctx)
+    ev = evaluate_cases(pid, cases, ctx, kall) if ok else \
         dict(n=0, x_mismatch=[], k_checked=0, k_mismatch=[], k_shards=0, answers={},
              backend_disagreement=[], log='')
     obligations += ev['k_shards']
